@@ -306,7 +306,7 @@ class C04(Check):
                        ">= 1 rule/scorer invocation; distinct = distinct SHA1 of the case")
 
     def budget(self):
-        return 4000 if self.tier == "quick" else 40000
+        return 4000 if self.tier == "quick" else 150000
 
     def search_budget(self):
         return 2500 if self.tier == "quick" else 20000
@@ -393,11 +393,31 @@ class C04(Check):
             events.append([5, rng.randrange(5)])
         return {"kind": "session", "spec": spec, "filters": filters, "events": events}
 
+    def exhaustive_small(self):
+        """thorough tier: every instance with <= 2 jobs x <= 2 operations on <= 2 machines, durations in {0,1,2},
+        flexible operations included; rule / chooser / filter configuration cycles through the matrix.
+        Validates the model against the code on a complete small family; it does not stand in for a theorem."""
+        import itertools
+        ops = [[ms, d] for ms in ([0], [1], [0, 1], [1, 0]) for d in (0, 1, 2)]
+        configs = [[], "default", [0], [1], [2], [3], [3, 0], [2, 1, 0]]
+        i = 0
+        for shape in ([1], [2], [1, 1], [2, 1], [1, 2], [2, 2]):
+            for combo in itertools.product(ops, repeat=sum(shape)):
+                it = iter(combo)
+                spec = [[list(next(it)) for _ in range(k)] for k in shape]
+                yield {"kind": "solve", "spec": spec, "rule": i % 6, "chooser": (i // 6) % 2,
+                       "filters": configs[(i // 12) % len(configs)], "seed": i, "clock": [i, i + (i % 3)]}
+                i += 1
+
     def gen_cases(self, rng, n):
         cases = []
+        if self.tier == "thorough":
+            cases = list(self.exhaustive_small())
+            self.note("exhaustive_small_instances", len(cases))
         for i in range(n):
             c = self.gen_solve(rng) if i % 5 < 3 else self.gen_session(rng)
             cases.append(c)
+        for c in cases:
             st = common.instance_stats(c["spec"])
             self.note("cases_" + c["kind"])
             for k in ("flexible", "zero", "empty_job"):
